@@ -486,7 +486,7 @@ class Ctx:
         findings = load_findings()
         for fid, cnt in sorted(self.known_hits.items()):
             f = [x for x in findings if x["id"] == fid][0]
-            print("KNOWN-FINDING: property=%s %s [%s; %d occurrences this run]" % (f["property"], f["text"], fid, cnt))
+            print("KNOWN-FINDING: property=%s %s [%s; %d occurrences this run]" % (self.pid, f["text"], fid, cnt))
         rc = 0
         for dv in self.divergences:
             print("VIOLATION property=%s replay=%s" % (self.pid, dv["replay"]))
@@ -511,7 +511,8 @@ def load_findings():
 def match_finding(findings, sig):
     for f in findings:
         m = f.get("match", {})
-        if f.get("property") != sig["property"]:
+        fp = f.get("property")
+        if not (sig["property"] == fp or (isinstance(fp, list) and sig["property"] in fp)):
             continue
         ok = True
         for k, v in m.items():
